@@ -428,7 +428,7 @@ incomplete:
 				if (!syntaxOnly || dynamic_cast<ThrowExpression *>(expr.get())) {
 					if (syntaxOnly)
 						std::cerr << "    => " << command << std::endl;
-					result = Serialize(expr->Evaluate(scriptFrame), 0);
+					result = Serialize(expr->Evaluate(scriptFrame), 0, scriptFrame.Sandboxed);
 				} else
 					result = true;
 			} else {
